@@ -28,5 +28,31 @@ def search(ctx, scale, hints):
                               {'build': b, 'script': [l], 'output': [o]}, {'class': 'contract', 'build': b}))
     return fails
 
+def field_sqrt_legendre(ctx):
+    """generic Field::sqrt and legendre of the three fields (arkworks build) against Euler's criterion: legendre through the
+    field model (Model/FieldTable.v), sqrt through the predicate y^2 = x / None iff non-residue"""
+    from .. import fieldcorr as fc
+    rng = ctx.rng.fork('fsqrt'); lines = []
+    for f in ('fq', 'fr', 'fp'):
+        m = fc.MOD[f]
+        xs = [0, 1, 2, 3, 4, 5, m - 1, m - 2, (m - 1) // 2] + [gen.rand_field(rng, m) for _ in range(12)]
+        xs += [x * x % m for x in xs[3:9]]
+        for x in xs: lines.append('%s.legendre %x' % (f, x)); lines.append('%s.sqrt %x' % (f, x))
+    n, mism, hout, skipped = fc.compare('ark', lines)
+    ctx.cov['evaluations'] += len(lines); ctx.cov['distinct_nontrivial'] += len(set(lines))
+    for mm in mism[:5]:
+        ctx.violation('legendre symbol differs from Euler\'s criterion: %s -> %s' % (mm['line'], mm['implementation']), {'stage': 'search', 'script': [mm['line']], 'output': [mm['implementation']], 'model': mm['model']},
+                      {'class': 'legendre', 'op': mm['line'].split()[0]}, found_input=True)
+    for l, o in zip(lines, hout):
+        f, _, op = l.split()[0].partition('.')
+        if op != 'sqrt': continue
+        m = fc.MOD[f]; x = int(l.split()[1], 16); qr = x == 0 or pow(x, (m - 1) // 2, m) == 1
+        ok = (o == 'NONE' and not qr) or (o.startswith('SOME ') and qr and pow(int(o.split()[1], 16), 2, m) == x)
+        if not ok:
+            ctx.violation('%s returns %s (x is %sa quadratic residue)' % (l, o, '' if qr else 'not '), {'stage': 'search', 'script': [l], 'output': [o]}, {'class': 'field_sqrt', 'op': l.split()[0]}, found_input=True)
+
 def run_check(ctx):
     run_property(ctx, 'Props.C09', VO, FILES, build_scripts, search, 'C09 (sqrt_ratio contract) is no longer shown to hold')
+    try: field_sqrt_legendre(ctx)
+    except RuntimeError as e:
+        ctx.violation('harness or model failed: %s' % str(e)[:300], {'stage': 'build', 'log': str(e)[-2000:]}, {'stage': 'build'}, found_input=False)
